@@ -1,5 +1,6 @@
 #!/bin/bash
 # seed_batch.sh <PID> <dir-with-a-b-subdirs> [extra seed_eval args]: evaluate the changes in <dir>/a, <dir>/b ... as <PID>-<next free n>
+# (SEED_PAR=<scratch worktree>:<scratch copy of /verif> in the environment keeps /repo and /verif/build untouched)
 pid=$1; dir=$2; shift 2
 for sub in "$dir"/*/; do
   [ -f "$sub/patch.diff" ] || continue
